@@ -32,7 +32,7 @@ type caseDesc struct {
 	Carrier    string `json:"carrier"`     // tcp+tls, https, tcp, http, udp, dns (the last four: StartTLS)
 	ServerCert string `json:"server_cert"` // match, wronghost, untrusted, expired
 	Insecure   bool   `json:"client_insecure"`
-	ClientCert string `json:"client_cert"` // none, own, foreign
+	ClientCert string `json:"client_cert"` // none, own, foreign, foreign-presented (foreign CA with the subject of the server's CA, so that the client really sends it), own-expired
 	Require    bool   `json:"require_client_cert"`
 	Host       string `json:"host_spelling"` // localhost, 127.0.0.1 (dns: example.org)
 }
@@ -70,6 +70,10 @@ func runCase(d caseDesc) (established bool, targetBytes int, problem string, inc
 		cfg.ClientCert = &pki.ClientGood
 	case "foreign":
 		cfg.ClientCert = &pki.ClientForeign
+	case "foreign-presented":
+		cfg.ClientCert = &pki.ClientShadow
+	case "own-expired":
+		cfg.ClientCert = &pki.ClientExpired
 	}
 	var p *vlib.Pair
 	var err error
@@ -120,7 +124,12 @@ func allCases(withDNS bool) []caseDesc {
 		for _, host := range hosts {
 			for _, sc := range []string{"match", "wronghost", "untrusted", "expired"} {
 				for _, ins := range []bool{false, true} {
-					for _, cc := range []string{"none", "own", "foreign"} {
+					ccs := []string{"none", "own", "foreign"}
+					if sc == "match" && host != "127.0.0.1" {
+						// a certificate of a foreign CA that the client really presents, and an expired one of the right CA
+						ccs = append(ccs, "foreign-presented", "own-expired")
+					}
+					for _, cc := range ccs {
 						for _, req := range []bool{false, true} {
 							out = append(out, caseDesc{Carrier: car, ServerCert: sc, Insecure: ins, ClientCert: cc, Require: req, Host: host})
 						}
